@@ -51,7 +51,7 @@ def _labels(v, with_ctx):
     ttw_s = None
     if ttw is not None:
         try:
-            ttw_s = tuple(sorted((tname(k), tuple(sorted(repr(term(x)) for x in vs))) for k, vs in ttw.items() if vs))
+            ttw_s = tuple(sorted((tname(k), tuple(sorted(repr(term(x)) for x in vs))) for k, vs in ttw.items()))
         except Exception:
             ttw_s = "<?>"
     return (
